@@ -17,7 +17,7 @@
 #include "xtl/xsequence.hpp"
 #include "xtl/xdynamic_bitset.hpp"
 
-#define CLOSURE_OPS(X) X(build) X(write) X(owner_write) X(copy) X(assign) X(move_assign) X(swap) X(destroy) X(read) X(forward_sequence) X(bit_reference)
+#define CLOSURE_OPS(X) X(build) X(write) X(owner_write) X(copy) X(assign) X(move_assign) X(swap) X(destroy) X(read) X(forward_sequence) X(bit_reference) X(cross_closure)
 
 namespace clops
 {
@@ -65,6 +65,7 @@ namespace
         const void* dead = nullptr; // where the temporary it was built from used to live
         unsigned factory = 0, cat = 0;
         const void* flag_addr = nullptr;   // reference closures over (value, flag): where the caller's flag lives
+        const void* value_addr = nullptr;  // reference closures: the referent (what every accessor form must designate)
         virtual ~H() {}
         virtual int forms() const { return 3; }
         virtual uint64_t read(int form) = 0;           // 0: lvalue accessor, 1: const accessor, 2: rvalue accessor, 3..: see each handle
@@ -88,17 +89,21 @@ namespace
     // Applies an rvalue accessor to a temporary copy of the wrapper that lives on the heap, ends the temporary's
     // lifetime (the injected fault), and only then reads the result: a value closure must have handed out an
     // independent object, a reference closure a reference to the referent - never a reference into the dead wrapper.
+    // `must_be` (optional): for a reference closure the accessor has to hand out a reference to exactly this object
+    // (the referent / the caller's flag) - a copy of it would read the same value and still break aliasing.
     template <class W, class F>
-    uint64_t after_death(const W& src, F f)
+    uint64_t after_death(const W& src, F f, const void* must_be = nullptr)
     {
         std::unique_ptr<W> t(new W(src));
         const char* lo = reinterpret_cast<const char*>(t.get());
         const char* hi = lo + sizeof(W);
+        using R = decltype(f(std::move(*t)));
         auto&& r = f(std::move(*t));
         const char* pr = reinterpret_cast<const char*>(&r);
         bool inside = pr >= lo && pr < hi;
         t.reset();
         if (inside) return DANGLING;
+        if (must_be && (!std::is_reference<R>::value || static_cast<const void*>(pr) != must_be)) return MISPLACED;
         return value_of(r);
     }
 
@@ -118,7 +123,7 @@ namespace
         {
             if (form == 0) return this->w->get().id;
             if (form == 1) return static_cast<const W&>(*this->w).get().id;
-            return after_death(static_cast<const W&>(*this->w), [](W&& x) -> decltype(auto) { return std::move(x).get(); });
+            return after_death(static_cast<const W&>(*this->w), [](W&& x) -> decltype(auto) { return std::move(x).get(); }, this->value_addr);
         }
         void write(uint64_t v, int form) override { do_write(v, form, std::integral_constant<bool, !is_const>()); }
         void do_write(uint64_t v, int form, std::true_type) { Suspend s; P val(v); if (form == 0) *this->w = val; else if (form == 1) this->w->get() = val; else *this->w = std::move(val); }
@@ -126,7 +131,7 @@ namespace
         const void* addr() override { return &static_cast<const W&>(*this->w).get(); }
         const void* addr_amp() override { return &(*this->w); }
         H* clone() override { auto* h = new HClosure<CT>(static_cast<const W&>(*this->w)); copy_meta(*h); return h; }
-        void copy_meta(H& h) { h.kind = this->kind; h.ref = this->ref; h.owned = this->owned; h.writable = this->writable; h.flag_addr = this->flag_addr; }
+        void copy_meta(H& h) { h.kind = this->kind; h.ref = this->ref; h.owned = this->owned; h.writable = this->writable; h.flag_addr = this->flag_addr; h.value_addr = this->value_addr; }
         bool assign_from(H& o, bool move) override { return do_assign(o, move, std::integral_constant<bool, !is_const>()); }
         bool do_assign(H& o, bool move, std::true_type)
         {
@@ -165,7 +170,7 @@ namespace
         void do_write(uint64_t, std::false_type) {}
         const void* addr() override { return &(*static_cast<const W&>(*this->w)); }
         const void* addr_amp() override { return this->w->operator->(); }
-        H* clone() override { auto* h = new HPointer<CT>(static_cast<const W&>(*this->w)); h->kind = this->kind; h->ref = this->ref; h->owned = this->owned; h->writable = this->writable; h->flag_addr = this->flag_addr; return h; }
+        H* clone() override { auto* h = new HPointer<CT>(static_cast<const W&>(*this->w)); h->kind = this->kind; h->ref = this->ref; h->owned = this->owned; h->writable = this->writable; h->flag_addr = this->flag_addr; h->value_addr = this->value_addr; return h; }
     };
 
     // xoptional<CT, CB>
@@ -173,7 +178,7 @@ namespace
     {
         using W = xtl::xoptional<CT, CB>;
         using HW<W>::HW;
-        static constexpr bool is_ref = std::is_reference<CT>::value;
+        static constexpr bool is_ref = std::is_reference<CT>::value || std::is_reference<CB>::value;
         uint64_t read(int form) override
         {
             if (!static_cast<bool>(static_cast<const W&>(*this->w).has_value())) return ~uint64_t(0);
@@ -182,11 +187,11 @@ namespace
             {
             case 0: return this->w->value().id;
             case 1: return cw.value().id;
-            case 2: return after_death(cw, [](W&& x) -> decltype(auto) { return std::move(x).value(); });
-            case 3: return after_death(cw, [](W&& x) -> decltype(auto) { return static_cast<const W&&>(x).value(); });
+            case 2: return after_death(cw, [](W&& x) -> decltype(auto) { return std::move(x).value(); }, this->value_addr);
+            case 3: return after_death(cw, [](W&& x) -> decltype(auto) { return static_cast<const W&&>(x).value(); }, this->value_addr);
             case 4: { auto& r = xtl::value(*this->w); return &r == &this->w->value() ? r.id : MISPLACED; }         // free functions
             case 5: { auto& r = xtl::value(cw); return &r == &cw.value() ? r.id : MISPLACED; }
-            case 6: return after_death(cw, [](W&& x) -> decltype(auto) { return xtl::value(std::move(x)); });
+            case 6: return after_death(cw, [](W&& x) -> decltype(auto) { return xtl::value(std::move(x)); }, this->value_addr);
             default:
             {
                 // the flag through every accessor: true, and for a reference closure the caller's own flag
@@ -195,9 +200,10 @@ namespace
                 if (!f0 || !f1 || !f2 || !f3) return BADFLAG;
                 if (&f1 != &f0 || &f2 != &f0 || &f3 != &f0) return MISPLACED;
                 if (this->flag_addr && static_cast<const void*>(&f0) != this->flag_addr) return MISPLACED;
-                if (after_death(cw, [](W&& x) -> decltype(auto) { return std::move(x).has_value(); }) != 1) return BADFLAG;
-                if (after_death(cw, [](W&& x) -> decltype(auto) { return static_cast<const W&&>(x).has_value(); }) != 1) return BADFLAG;
-                if (after_death(cw, [](W&& x) -> decltype(auto) { return xtl::has_value(std::move(x)); }) != 1) return BADFLAG;
+                for (uint64_t c : {after_death(cw, [](W&& x) -> decltype(auto) { return std::move(x).has_value(); }, this->flag_addr),
+                                   after_death(cw, [](W&& x) -> decltype(auto) { return static_cast<const W&&>(x).has_value(); }, this->flag_addr),
+                                   after_death(cw, [](W&& x) -> decltype(auto) { return xtl::has_value(std::move(x)); }, this->flag_addr)})
+                    if (c != 1) return c >= BADFLAG ? c : BADFLAG;
                 return cw.value().id;
             }
             }
@@ -205,8 +211,15 @@ namespace
         int forms() const override { return 8; }
         void write(uint64_t v, int form) override { Suspend s; P val(v); if (form == 0) *this->w = val; else if (form == 1) this->w->value() = val; else xtl::value(*this->w) = val; }
         const void* addr() override { return &static_cast<const W&>(*this->w).value(); }
-        const void* addr_amp() override { auto p = &(*this->w); return &(*p).value(); }
-        H* clone() override { auto* h = new HOptional<CT, CB>(static_cast<const W&>(*this->w)); h->kind = this->kind; h->ref = this->ref; h->owned = this->owned; h->writable = this->writable; h->flag_addr = this->flag_addr; return h; }
+        const void* addr_amp() override
+        {
+            auto p = &(*this->w);                                   // operator&() &
+            auto cp = &static_cast<const W&>(*this->w);            // operator&() const &
+            const void* a = &(*p).value();
+            const void* b = &(*cp).value();
+            return a == b ? a : nullptr;
+        }
+        H* clone() override { auto* h = new HOptional<CT, CB>(static_cast<const W&>(*this->w)); h->kind = this->kind; h->ref = this->ref; h->owned = this->owned; h->writable = this->writable; h->flag_addr = this->flag_addr; h->value_addr = this->value_addr; return h; }
         bool assign_from(H& o, bool move) override { return do_assign(o, move, std::integral_constant<bool, !is_ref>()); }
         bool do_assign(H& o, bool move, std::true_type)
         {
@@ -237,16 +250,17 @@ namespace
             {
             case 0: return this->w->value().id;
             case 1: return cw.value().id;
-            case 2: return after_death(cw, [](W&& x) -> decltype(auto) { return std::move(x).value(); });
-            case 3: return after_death(cw, [](W&& x) -> decltype(auto) { return static_cast<const W&&>(x).value(); });
+            case 2: return after_death(cw, [](W&& x) -> decltype(auto) { return std::move(x).value(); }, this->value_addr);
+            case 3: return after_death(cw, [](W&& x) -> decltype(auto) { return static_cast<const W&&>(x).value(); }, this->value_addr);
             default:
             {
                 auto& f0 = this->w->visible(); auto& f1 = cw.visible();
                 if (!f0 || !f1) return BADFLAG;
                 if (&f1 != &f0) return MISPLACED;
                 if (this->flag_addr && static_cast<const void*>(&f0) != this->flag_addr) return MISPLACED;
-                if (after_death(cw, [](W&& x) -> decltype(auto) { return std::move(x).visible(); }) != 1) return BADFLAG;
-                if (after_death(cw, [](W&& x) -> decltype(auto) { return static_cast<const W&&>(x).visible(); }) != 1) return BADFLAG;
+                for (uint64_t c : {after_death(cw, [](W&& x) -> decltype(auto) { return std::move(x).visible(); }, this->flag_addr),
+                                   after_death(cw, [](W&& x) -> decltype(auto) { return static_cast<const W&&>(x).visible(); }, this->flag_addr)})
+                    if (c != 1) return c >= BADFLAG ? c : BADFLAG;
                 return cw.value().id;
             }
             }
@@ -254,7 +268,7 @@ namespace
         int forms() const override { return 5; }
         void write(uint64_t v, int form) override { Suspend s; P val(v); if (form == 0) *this->w = val; else this->w->value() = val; }
         const void* addr() override { return &static_cast<const W&>(*this->w).value(); }
-        H* clone() override { auto* h = new HMasked<T, B>(static_cast<const W&>(*this->w)); h->kind = this->kind; h->ref = this->ref; h->owned = this->owned; h->writable = this->writable; h->flag_addr = this->flag_addr; return h; }
+        H* clone() override { auto* h = new HMasked<T, B>(static_cast<const W&>(*this->w)); h->kind = this->kind; h->ref = this->ref; h->owned = this->owned; h->writable = this->writable; h->flag_addr = this->flag_addr; h->value_addr = this->value_addr; return h; }
     };
 
     // xproxy_wrapper<P> for a class proxy: the wrapper *is* the proxy
@@ -302,7 +316,15 @@ namespace
             else { *this->w = static_cast<double>(v); this->w->imag() = -static_cast<double>(v); }   // complex = real sets imag to 0 first
         }
         const void* addr() override { return &static_cast<const W&>(*this->w).real(); }
-        H* clone() override { auto* h = new HComplex<CT>(static_cast<const W&>(*this->w)); h->kind = this->kind; h->ref = this->ref; h->owned = this->owned; h->writable = this->writable; h->flag_addr = this->flag_addr; return h; }
+        const void* addr_amp() override
+        {
+            auto p = &(*this->w);                                   // operator&() &
+            auto cp = &static_cast<const W&>(*this->w);            // operator&() const &
+            const void* a = &(*p).real();
+            const void* b = &(*cp).real();
+            return a == b ? a : nullptr;
+        }
+        H* clone() override { auto* h = new HComplex<CT>(static_cast<const W&>(*this->w)); h->kind = this->kind; h->ref = this->ref; h->owned = this->owned; h->writable = this->writable; h->flag_addr = this->flag_addr; h->value_addr = this->value_addr; return h; }
     };
 
     // xclosure_wrapper<int&> through proxy_wrapper(int&)
@@ -434,6 +456,7 @@ namespace
                 Referent& f = *refs[r];
                 if (f.obj.id != val[r] || f.re != static_cast<double>(val[r]) || f.im != -static_cast<double>(val[r]) || f.iv != static_cast<int>(val[r]) || !f.flag)
                     viol("model", "referent", "referent " + std::to_string(r) + " holds " + std::to_string(f.obj.id) + "/" + std::to_string(f.iv) + ", expected " + std::to_string(val[r]));
+                if (f.obj.moved) viol("model", "referent-moved-from", "referent " + std::to_string(r) + " was moved from: something treated a reference closure onto it as an expiring value");
             }
             for (int i = 0; i < 4; ++i) if (h[i]) check_handle(i);
         }
@@ -485,15 +508,24 @@ namespace
                 if (cat <= 1) { out = new HIntProxy(xtl::proxy_wrapper(f.iv)); name = "int_proxy_wrapper_lvalue"; aliases = true; }
                 else { out = new HProxy(xtl::proxy_wrapper(std::move(*tmp))); name = "proxy_wrapper_xvalue"; }
                 break;
-            default:  // xcomplex over closures
+            case 7:   // xcomplex over closures
                 if (cat <= 1) { out = new HComplex<double&>(f.re, f.im); name = "complex_lvalue"; aliases = true; }
                 else { double a = static_cast<double>(id), b = -a; out = new HComplex<double>(std::move(a), std::move(b)); name = "complex_rvalue"; }
+                break;
+            case 8:   // optional with closures of different kinds: (lvalue value, own flag) or (own value, caller's flag)
+                if (cat <= 1) { out = new HOptional<P&, bool>(xtl::optional(f.obj, true)); name = "optional_lvalue_value_own_flag"; aliases = true; }
+                else { out = new HOptional<P, bool&>(xtl::optional(std::move(*tmp), f.flag)); name = "optional_own_value_lvalue_flag"; out->flag_addr = &f.flag; }
+                break;
+            default:  // xmasked_value with closures of different kinds
+                if (cat <= 1) { out = new HMasked<P&, bool>(f.obj, true); name = "masked_lvalue_value_own_flag"; aliases = true; }
+                else { out = new HMasked<P, bool&>(std::move(*tmp), f.flag); name = "masked_own_value_lvalue_flag"; out->flag_addr = &f.flag; }
                 break;
             }
             out->kind = name;
             if (aliases)
             {
                 out->ref = r;
+                out->value_addr = payload_addr(*out, r);
                 if (registry().copies != copies) viol("model", "no-copy", std::string(name) + ": building a wrapper from an lvalue copied the referent");
             }
             else { out->ref = -1; out->owned = id; out->dead = dead; }
@@ -504,10 +536,10 @@ namespace
         void op_build(const Step& st)
         {
             int slot = st.actor % 4;
-            unsigned factory = static_cast<unsigned>(st.d % 8), cat = static_cast<unsigned>(st.a % 5);
+            unsigned factory = static_cast<unsigned>(st.d % 10), cat = static_cast<unsigned>(st.a % 5);
             int r = static_cast<int>(st.c % 3);
             // name is only known after building; use a provisional scope name from the indices
-            static const char* const fn[] = {"closure", "const_closure", "closure_pointer", "const_closure_pointer", "optional", "masked_value", "proxy_wrapper", "complex"};
+            static const char* const fn[] = {"closure", "const_closure", "closure_pointer", "const_closure_pointer", "optional", "masked_value", "proxy_wrapper", "complex", "optional_mixed", "masked_mixed"};
             static const char* const cn[] = {"lvalue", "const_lvalue", "prvalue", "xvalue", "const_xvalue"};
             Scope sc(*this, st, "build", std::string(fn[factory]) + "_" + cn[cat]);
             h[slot].reset();
@@ -716,10 +748,59 @@ namespace
             check_all();
         }
 
+        // Construction and assignment between xoptional closures of different kinds: a reference proxy - also a temporary
+        // or moved one - copied into an owning optional copies the referent (never moves out of it); an owning optional
+        // assigned into a reference proxy writes through to the referent.
+        void op_cross_closure(const Step& st)
+        {
+            static const char* const vn[] = {"own_from_proxy_lvalue", "own_from_proxy_moved", "own_from_proxy_temporary", "construct_own_from_proxy_temporary", "construct_own_from_proxy_moved",
+                                             "proxy_from_own_lvalue", "proxy_from_own_moved", "own_from_proxy_const"};
+            unsigned v = static_cast<unsigned>(st.d % 8);
+            int r = static_cast<int>(st.c % 3);
+            Scope sc(*this, st, "cross_closure", vn[v]);
+            Referent& f = *refs[r];
+            using Own = xtl::xoptional<P, bool>;
+            using Proxy = xtl::xoptional<P&, bool&>;
+            uint64_t id = fresh();
+            uint64_t before = val[r];
+            {
+                Own own(P(id), true);
+                Proxy px = xtl::optional(f.obj, f.flag);
+                uint64_t got = 0;
+                switch (v)
+                {
+                case 0: own = px; got = own.value().id; break;
+                case 1: own = std::move(px); got = own.value().id; break;
+                case 2: own = xtl::optional(f.obj, f.flag); got = own.value().id; break;
+                case 3: { Own o2(xtl::optional(f.obj, f.flag)); got = o2.value().id; } break;
+                case 4: { Own o2(std::move(px)); got = o2.value().id; } break;
+                case 5: px = own; got = before; break;
+                case 6: px = std::move(own); got = before; break;
+                default: { const Proxy& cpx = px; own = cpx; got = own.value().id; } break;
+                }
+                if (v == 5 || v == 6)
+                {
+                    // written through: the referent now holds the owning optional's value
+                    if (f.obj.id != id) viol("model", "write-through", "assigning an owning optional into a reference proxy did not reach the referent");
+                    if (&px.value() != &f.obj) viol("model", "rebind", "assignment rebound the proxy");
+                    val[r] = id; f.set(id);
+                    f.obj.moved = false; registry().set(&f.obj, id, false);
+                }
+                else
+                {
+                    if (got != before) viol("model", "read", std::string("an owning optional built/assigned from a reference proxy (") + vn[v] + ") holds " + std::to_string(got) + ", the referent holds " + std::to_string(before));
+                }
+                SIM_PROBE("cross_closure_kind_assignment");
+            }
+            ++run.changing;
+            check_all();
+        }
+
         void step(const Step& st)
         {
             switch (st.op)
             {
+            case OP_cross_closure: op_cross_closure(st); break;
             case OP_build: op_build(st); break;
             case OP_write: op_write(st); break;
             case OP_owner_write: op_owner_write(st); break;
@@ -752,7 +833,7 @@ namespace
         size_t n = 1;
         while (n < 25 && cfg.below(9) != 0) ++n;
         plan.params.push_back(n);
-        unsigned w[OP_COUNT] = {10, 8, 6, 4, 4, 3, 4, 2, 2, 1, 1};
+        unsigned w[OP_COUNT] = {10, 8, 6, 4, 4, 3, 4, 2, 2, 1, 1, 2};
         if (cfg.below(3) == 0) for (unsigned i = 1; i < OP_COUNT; ++i) if (cfg.below(4) == 0) w[i] = 0;
         unsigned total = 0;
         for (unsigned i = 0; i < OP_COUNT; ++i) total += w[i];
